@@ -429,6 +429,19 @@ def run(model, col, tier, share=True):
             okz |= "GetArguments" in unparse(a0) and "GetArgumentTypes().values()" in t1
     col.check(okz, "R03.5", "nsl/passes/AddImplicitCasts.py::v_CallExpression pairs arguments with parameter types",
               "zip(call arguments, function.GetArgumentTypes().values())", "call arguments are not zipped with the parameter types in order", "nsl/passes/AddImplicitCasts.py", aic)
+    # ... and the converted arguments replace the call's arguments (binding converts each argument to its parameter's type)
+    lists_ = {unparse(c.func.value) for c in ast.walk(aic) if isinstance(c, ast.Call) and last_attr(c) == "append" and isinstance(c.func, ast.Attribute)}
+    inst_ = [c for c in ast.walk(aic) if isinstance(c, ast.Call) and last_attr(c) == "SetArguments" and c.args and unparse(c.args[0]) in lists_]
+    col.check(bool(inst_), "R03.5", "nsl/passes/AddImplicitCasts.py::v_CallExpression installs the converted arguments", "node.SetArguments(<rebuilt list>)",
+              "the list of converted arguments is never installed: an argument keeps its own type (a float reaches an int parameter unconverted)", "nsl/passes/AddImplicitCasts.py", aic)
+    # ... wherever the call sits: the cast pass reaches every expression (a call nested in another call's argument, in a constructor or
+    # in an index expression gets its conversions too)
+    from ..astcover import check_handler_coverage
+    from ..dispatch import Dispatch as _Dispatch
+
+    ncov = check_handler_coverage(model, _Dispatch(model), col, "R03.5", model.cls("nsl/passes/AddImplicitCasts.py", "AddImplicitCastVisitor"), "nsl/passes/AddImplicitCasts.py",
+                                  "expressions below it never get their implicit conversions - `h(g(2.5))` passes 2.5 to g's int parameter while `g(2.5)` alone passes 2")
+    col.floor("R03.5", "explicit handlers of the cast pass", ncov, 4)
     # types.Function.Resolve fills __argumentTypes in declaration order
     res = model.cls(TYPES, "Function").own_method("Resolve")
     ordered_enum(res, "self.arguments", f"{TYPES}::Function.Resolve argument types", TYPES)
